@@ -49,6 +49,20 @@ findings:
 | C07 NONNULL | the error branch for Optional arguments contains a nested test that exempts parameters declared Optional: the whole branch was treated as "error recorded" | only the statements that append the error taint the path |
 | C17 PRE-SURR | `x.end is None or ord(x.end.character) < S` evaluated eagerly on the sample `end = None` | the predicate evaluator short-circuits like Python |
 | MEMBER-STORE (withdrawn) | `if k not in A: B[k] = v` with A != B has one deviant site (`_hierarchy.py`: methods tested against `observed_properties`); a model that exploits it is still rejected by a later check, so the property holds and the report would have been a false alarm | rule and repair withdrawn; the site is listed under 10.6 |
+
+**Behaviour-preserving edits as a test of the rules.**  Two probe tools rewrite the functions the rules read, on the syntax
+tree, and run the checks on the in-memory overlay; any report is a false alarm by construction.
+`tools/rename_probe.py` renames every local of 67 functions; `tools/refactor_probe.py` re-emits the module with
+`ast.unparse` (formatting, comments and line numbers change), inverts every `if c: A else: B` to `if not c: B else: A`,
+swaps the sides of `==`/`!=`, removes the `else` after a body that always leaves, and adds such an `else`.
+The first runs produced reports for about 40 % of the functions (rules that matched a local's name, the polarity of one
+particular `if`, the side a constant stands on, or counted the final `return` inside an added `else` as an early exit).
+These were corrected at the root, in the program model rather than rule by rule: every module is brought into a canonical
+form before any rule reads it (`sa/model.py`): locals are mapped back to their reference names (`baselines/locals.json`),
+a negated test with an `else` is flipped, a constant-like side of a symmetric comparison stands on the right, and the
+`else` after a body that ends in return / continue / break / raise is dissolved into the enclosing block.  Rules that compare
+two non-constant sides (C17 SPLIT) do so modulo their order.  After these changes both probes are silent on all 67
+functions in all modes, and all self-test variants, seeded changes and reverted fixes are still reported.
 """
 
 OBSERVED = """
